@@ -117,13 +117,6 @@ class Oracle:
                         if not (isinstance(p, str) and p.startswith("/SIMFS/othercache/")):
                             return self._v(clause, "the second named cache returned a path outside its own directory: %r" % (p,), obs)
             return None
-        if obs.other_limit is not None and obs.other_post is not None and obs.exc is None:
-            tot = sum(e[1] for p, e in obs.other_post.items()
-                      if e[0] == "f" and is_cache_name(posixpath.basename(p)) and posixpath.dirname(p) == "/SIMFS/othercache")
-            if tot > obs.other_limit:
-                return self._v(clause, "the second named cache holds %d bytes, more than its configured %d, after an "
-                               "operation (a nested request while the first cache's request was in progress?)"
-                               % (tot, obs.other_limit), obs)
         if obs.kind in ("OPEN", "REOPEN", "PURGE"):
             return None  # (re)creation of the caches writes the second cache's config
         if obs.kind == "GET" and any(w.keys[k]["scheme"] == "chain" for k in obs.op["keys"]):
